@@ -314,7 +314,7 @@ package output
 
 // C07: accepted iff the dependency relation (exactly depRel, by BuildDependencyGraph's contract) has no cycle
 //@ func ValidateCircularDeps
-//@   property C07 C12
+//@   property C07 C12 C16
 //@   modifies edges
 //@   ensures [graph_is_the_dependency_relation] forall a Node, b Node :: edge(edges, a, b) <==> depRel(o, a, b, len(o.Services), len(o.Decorators), len(o.Params))
 //@   ensures [accept_iff_acyclic] (result == nil) <==> acyclic(edges)
